@@ -438,7 +438,15 @@ func (ex *Exec) apply(st *State, fn *Val, args []*Val, e *ast.CallExpr) []*Val {
 	}
 	// closure literal: inline
 	if fn.Lit != nil {
-		return ex.inlineClosure(st, fn, args, pos)
+		if e == nil {
+			return ex.inlineClosure(st, fn, args, pos)
+		}
+		// monitors may name the closure variable being called
+		nm := exprText(e.Fun)
+		ex.runHooks(st, "enter", nm, args, nil, pos)
+		res := ex.inlineClosure(st, fn, args, pos)
+		ex.runHooks(st, "call", nm, args, res, pos)
+		return res
 	}
 	if fn.Fn != nil {
 		if fn.Recv != nil {
